@@ -16,6 +16,9 @@ var c02Preds = []string{
 	"position()=2", "position()<=2", "position()=last()", "position() mod 2 = 1",
 	"a", "@x", "'s'", "''", "true()", "false()", ".=1", "count(a)", "a[1]", "position()", "last() > 1",
 	"count(*)", "number(@x)", "string-length(name())", "not(b)", "position() = last() - 1", "2 = position()",
+	// position() and last() inside the arguments of a function call keep the predicate's context
+	"not(position() = 1)", "boolean(position() = last())", "number(last())", "floor(last() div 2)", "not(position() < last())",
+	"string(position()) = '2'", "round(position() div 2) = 1", "concat(position(), '') = string(last())", "count(a[position() = last()]) = 1",
 }
 
 func c02Exprs(quick bool) []string {
@@ -75,7 +78,7 @@ func c02Exprs(quick bool) []string {
 		"//*[ancestor::*[1]/@x]", "//*[preceding-sibling::*[1][self::a]]", "//*[following-sibling::*[last()][self::b]]", "//*[ancestor::*[last()]]", "//*[preceding::*[1]/self::a]")
 	// filter expressions: document-order numbering, continued paths
 	Es := []string{"//a", "//*", "//a/ancestor::*", "//*/preceding::node()", "//b/ancestor-or-self::*", "//*/preceding-sibling::*", "//a | //b", "$v", "$w", "els()", "/*/*"}
-	fp := []string{"1", "2", "last()", "position()=2", "position()<=2", "last()-1", "a", "true()", "0.5", "position()=last()"}
+	fp := []string{"1", "2", "last()", "position()=2", "position()<=2", "last()-1", "a", "true()", "0.5", "position()=last()", "not(position() < last())", "number(last())"}
 	for _, e := range Es {
 		pe := "(" + e + ")"
 		if e == "$v" || e == "$w" || e == "els()" {
